@@ -320,6 +320,13 @@ def gen_plan(r, tier, index):
             faults.append({"kind": r.choice(["eio", "eio", "enospc"]), "pid": procs[pi]["pid"], "op": "write",
                            "nth": r.choice([1, 1, 2, 3]), "phase": f"s{si}:" + r.choice(["exit", "exit", "body"]),
                            "arg": r.randrange(1, 5000)})
+            # A device that fails the closing flush mostly keeps failing (a full disk stays full): the writes that follow
+            # in the same exit fail too, so that a close() which flushes more than once still leaves what the first
+            # failure left - a lost or torn tail - instead of completing it at the second attempt.
+            f_ = faults[-1]
+            if f_["phase"].endswith(":exit") and r.random() < 0.6:
+                for more_ in (1, 2, 3):
+                    faults.append(dict(f_, nth=f_["nth"] + more_, arg=0))
     plan = {
         "check": CHECK, "directed": "lost-close-then-same-size-append" if same_size is not None else ("name-re-pointed-to-the-other-library" if retarget else (("two-puts-cut-short-then-caught" if twice_ else "put-cut-short-then-caught") if caught_partial is not None else None)),
         "master_overwrite": r.random() < 0.2,
